@@ -144,3 +144,26 @@ CHECKS['C03'] = dict(
                  'known findings (open): lref label tables are shared between interpreter and generator; lazy-bb stubs and the interpreter share func_item->data; lazy-bb thunks reach only +-2GB; the lazy-bb generator consumes the MIR of the functions it enters',
                  'the public address of a function is taken after the link step that sets its interface (MIR assigns it at load)'],
 )
+
+CHECKS['C18'] = dict(
+    harness='tasksim', variant='plain', level='exploration', default_seed=1,
+    tiers={
+        'quick': dict(count=900, budget_s=500),
+        'thorough': dict(count=30000, budget_s=3000),
+    },
+    rule=('run = 2..4 cooperative tasks (ucontext coroutines, one OS thread), each with its own MIR context, arena, code region, stack and '
+          'simulated clock at fixed addresses, each executing a seeded lcsim history (create modules by scan / c2mir / binary read, load, link '
+          'with mixed interfaces, generate, execute, output, write, finish).  The simulator picks the running task at every seam event (allocator, '
+          'code allocator, external call) under a seeded policy (uniform, long slices, round robin, starve one, sequential) with faults stall / '
+          'abandon / clock jump; a switched-out task\'s memory is PROT_NONE; libmir.so\'s writable image is write-protected and every write traps. '
+          'Each task first runs alone in a pristine forked process; then all run interleaved in another pristine process. '
+          'non-trivial = at least 3 context switches happened; distinct = hash of (policy knobs, task plans).'),
+    probes=['context_switches', 'yield_points', 'tasks_equal_to_solo', 'fault_task_abandoned', 'fault_task_stalled', 'fault_clock_jump',
+            'module_via_c2mir', 'gen_lazy_on_first_call', 'contexts_finished'],
+    components_real=_LC_REAL + ['every context of a run lives in one process image: library statics are really shared'],
+    components_stubbed=_LC_STUB + ['threads (cooperative coroutines on one OS thread; the scheduler decides every switch)', 'thread scheduling (seeded policy, recorded in the plan)', 'per-task simulated clock'],
+    assumptions=['switches happen only at seam events (allocator / code-allocator / external calls): instruction-granular pre-emption is not simulated; conflicts on library statics are found by write traps whatever the interleaving',
+                 'only writes to the library image are trapped; a static written by one context and merely read by others is reported as a probe (static_written_<symbol>), and caught as a violation only through its effects (solo equivalence, foreign memory access, crash)',
+                 'a task whose own history fails when it runs alone is a side finding (not interference)',
+                 'thread-local state: MIR uses none; errno is saved and restored per task'],
+)
